@@ -62,7 +62,7 @@ def full_state(directory):
 def lib_check(cache):
     import diskcache
     with warnings.catch_warnings():
-        warnings.simplefilter('ignore')
+        warnings.simplefilter('always')
         try:
             warns = cache.check()
         except Exception as exc:
